@@ -9,6 +9,10 @@ Extracted from the AST of the current source:
     whether `sentinel=self.sentinel` is forwarded;
   * `Invoke.constants/specs/star`: `ret._cur_kwargs = dict(self._cur_kwargs)` on a fresh `ret`;
   * `_iterate`: `if yld is SKIP: continue` / `elif yld is self.sentinel or yld is STOP: return`;
+  * `_iterate`: the iterator `iterate(target)` returns is the iterable of the `for` loop
+    (`enumerate(iterator)`) and is mentioned nowhere else; `target` is mentioned only as an
+    argument of `get_handler(…)` / `iterate(…)` and in the TypeError message — so the only thing
+    a run does to the caller's source is calling `next()` on it;
   * `glomit`: callbacks folded in `reversed(self._iter_stack)` order;
   * builder method -> the iterator function its callback calls.
 """
@@ -75,6 +79,44 @@ def is_self_attr(node, attr):
             and isinstance(node.value, ast.Name) and node.value.id == 'self')
 
 
+def only_nexts(itf, loop):
+    """`iterator` only feeds the for loop, `target` only the handler lookup / the error message"""
+    parent = {}
+    for n in ast.walk(itf):
+        for c in ast.iter_child_nodes(n):
+            parent[c] = n
+    it_ok = (isinstance(loop.iter, ast.Call) and ast.unparse(loop.iter) == 'enumerate(iterator)') \
+        or ast.unparse(loop.iter) == 'iterator'
+    assigns = 0
+    for n in ast.walk(itf):
+        if not isinstance(n, ast.Name):
+            continue
+        if n.id == 'iterator':
+            if isinstance(n.ctx, ast.Store):
+                a = parent.get(n)
+                assigns += 1
+                if not (isinstance(a, ast.Assign) and ast.unparse(a.value) == 'iterate(target)'):
+                    it_ok = False
+            else:
+                pp = parent.get(n)
+                if not (pp is loop.iter or n is loop.iter):
+                    it_ok = False
+        elif n.id == 'target':
+            pp = parent.get(n)
+            if isinstance(n.ctx, ast.Store):
+                it_ok = False
+            elif isinstance(pp, ast.Call) and n in pp.args and ast.unparse(pp.func) in (
+                    'iterate', 'scope[TargetRegistry].get_handler'):
+                pass
+            elif isinstance(pp, ast.Attribute) and pp.attr == '__class__' and isinstance(pp.ctx, ast.Load) \
+                    and isinstance(parent.get(pp), ast.Attribute) and parent[pp].attr == '__name__':
+                pass
+            else:
+                it_ok = False
+    # no other name may alias the two (`x = iterator`, `src = target`) — covered: such a load is rejected above
+    return bool(it_ok and assigns == 1)
+
+
 def extract(ctx):
     P = ctx['P']
     find_def = ctx['find_def']
@@ -83,7 +125,7 @@ def extract(ctx):
     it = find_def(st, 'Iter')
     inv = find_def(core, 'Invoke')
     iter_writes, invoke_writes = [('?', 'class not found')], [('?', 'class not found')]
-    new_list = fwd = skip_cont = stop_ret = rev = False
+    new_list = fwd = skip_cont = stop_ret = rev = nexts = False
     copies, callbacks = [], []
     if it is None:
         P.add('class Iter not found in streaming.py')
@@ -131,6 +173,7 @@ def extract(ctx):
                                 stop_ret = (srcs == ['yld is STOP', 'yld is self.sentinel']
                                             and len(e.body) == 1 and isinstance(e.body[0], ast.Return)
                                             and e.body[0].value is None)
+            nexts = only_nexts(itf, loop)
             # the yield must come after the SKIP/STOP test
             last = loop.body[-1]
             if not (isinstance(last, ast.Expr) and isinstance(last.value, ast.Yield)
@@ -182,6 +225,7 @@ def extract(ctx):
         ('c17InvokeCopies', 'List (String × Bool)', copies),
         ('c17IterateSkipContinues', 'Bool', bool(skip_cont)),
         ('c17IterateStopReturns', 'Bool', bool(stop_ret)),
+        ('c17IterateOnlyNexts', 'Bool', bool(nexts)),
         ('c17GlomitReversed', 'Bool', bool(rev)),
         ('c17Callbacks', 'List (String × String)', callbacks),
     ]
